@@ -125,7 +125,7 @@ for n, lens in ((1, (1,)), (2, (2, 3, 4, 5)), (3, (3, 4, 5))):
                 shape = "%d,%d,%d,%d" % (h, n, st, k)
                 tag = "h%d-n%d-s%d-k%d" % (h, n, st, k)
                 bound = "ASCII haystack window of %d chars%s, needle %d chars, %s, all bytes/ignore_case/normalize" % (L, " preceded by one char" if st else " at position 0", n, CFGNAME[k])
-                tier = "quick" if (L <= 4 or (n == 3 and k == 0)) else "thorough"
+                tier = "quick" if ((L <= 4 and (k == 0 or st == 0)) or (n == 3 and k == 0 and L == 5)) else "thorough"
                 UC("c03-cs-ws-" + tag, "score", "cs_witness_and_score::<%s>()" % shape, {"C03": tier, "C02": tier, "C10": tier}, "bounded", SCORE_FNS,
                    "calculate_score: one index per needle char appended (valid witness inside the window), prior content untouched, score == fzf scheme on those indices",
                    unwind=max(h + 3, 7), bound=bound, cost=3)
